@@ -31,6 +31,8 @@ pub struct DeletionQuery {
     pub nodes: Vec<NodeDelete>,
     pub node_log: Vec<NodeDeletionEntry>,
     pub updated_nodes: Vec<Node>,
+    //previous modification date of the updated_nodes
+    pub updated_nodes_old_date: Vec<i64>,
     pub edges: Vec<EdgeDelete>,
     pub edge_log: Vec<EdgeDeletionEntry>,
 }
@@ -46,6 +48,7 @@ impl DeletionQuery {
             nodes: Vec::new(),
             node_log: Vec::new(),
             updated_nodes: Vec::new(),
+            updated_nodes_old_date: Vec::new(),
             edges: Vec::new(),
             edge_log: Vec::new(),
         };
@@ -89,6 +92,7 @@ impl DeletionQuery {
                         }
                     }
                     let mut node = *node;
+                    deletion_query.updated_nodes_old_date.push(node.mdate);
                     node.mdate = date;
                     deletion_query.updated_nodes.push(node);
                 }
@@ -128,6 +132,15 @@ impl DeletionQuery {
         for log in &self.node_log {
             daily_log.set_need_update(log.room_id, &log.entity, log.mdate);
             daily_log.set_need_update(log.room_id, &log.entity, log.deletion_date);
+        }
+        //source rows of deleted references are re-dated: both days change
+        for (i, node) in self.updated_nodes.iter().enumerate() {
+            if let Some(room_id) = &node.room_id {
+                daily_log.set_need_update(*room_id, &node._entity, node.mdate);
+                if let Some(old_date) = self.updated_nodes_old_date.get(i) {
+                    daily_log.set_need_update(*room_id, &node._entity, *old_date);
+                }
+            }
         }
     }
 }
